@@ -24,7 +24,7 @@ STORE_PREDS = {"valid", "cas", "accepted-but-breaks-direct-chain", "accepted-but
 COMPILE_PREDS = {"Terminates", "Deterministic-graph", "Deterministic-output", "NoPanic", "read-only", "ok-iff-spec-ok",
                  "err-class", "UniqueIds", "Closed", "Acyclic", "AllPathsEndInResolverWithTarget", "targets", "graph"}
 DOC = {
-    "Terminates": "every discoverychain.Compile call returned (watchdog 20 s, must expire twice in a row; 60 s for a store write, whose validation compiles inside the transaction)",
+    "Terminates": "every discoverychain.Compile call returned: each call runs in a goroutine under a watchdog (20 s scaled by machine load, must expire twice in a row; twice that for a store write, whose validation compiles inside the transaction); a call that does not return is recorded as result class no-return, which the specification (error class or graph) never allows",
     "Deterministic-graph": "all repeated compilations (shuffled entry/map insertion orders) return the same graph: start, nodes, edges in order, targets, protocol",
     "Deterministic-output": "all repeated compilations return byte-identical complete outputs (digest of the whole CompiledDiscoveryChain, incl. split weights)",
     "NoPanic": "Compile did not panic",
@@ -69,11 +69,59 @@ def cmd_kind(c):
     return "compile" if c["t"] == "compile" else "store"
 
 
+def watchdog_s():
+    """bound of one Compile call: 20 s, scaled for a loaded machine (the property is termination, not speed)"""
+    try:
+        load = os.getloadavg()[0] / max(1, vf.NCPU)
+    except OSError:
+        load = 1.0
+    return int(20 * min(3.0, max(1.0, load)))
+
+
+MAX_RELAUNCH = 2
+
+
 def harness(binary, args, what):
-    p = vf.run_harness(binary, args, timeout=3000)
-    if p.returncode not in (0, 3):
-        raise vf.Infra("h-disco %s failed rc=%s: %s" % (what, p.returncode, p.stderr[-2000:]))
-    return json.loads(p.stdout.strip().splitlines()[-1])
+    """Runs h-disco. Exit 3 = some call did not return (recorded as result class "no-return", judged by TLC).
+    When the process ended early (too many abandoned calls, memory) a fresh process resumes behind the
+    behaviours that did not return; the traces are concatenated into the -out file."""
+    out = args[args.index("-out") + 1]
+    base = [a for a in args]
+    skip = []
+    meta = {"behaviours": 0, "events": 0, "hung": False, "noreturn": [], "truncated": False}
+    resume = 0
+    for attempt in range(MAX_RELAUNCH + 1):
+        part = out if attempt == 0 else "%s.part%d" % (out, attempt)
+        a = [x for x in base]
+        a[a.index("-out") + 1] = part
+        a += ["-watchdog", "%ds" % watchdog_s()]
+        if attempt:
+            a += ["-from", str(resume), "-skip", ",".join(str(x) for x in skip)]
+        p = vf.run_harness(binary, a, timeout=3000)
+        if p.returncode not in (0, 3):
+            raise vf.Infra("h-disco %s failed rc=%s: %s" % (what, p.returncode, p.stderr[-2000:]))
+        m = json.loads(p.stdout.strip().splitlines()[-1])
+        if attempt:
+            with open(out, "a") as f, open(part) as g:
+                shutil.copyfileobj(g, f)
+            os.remove(part)
+        meta["behaviours"] += m["behaviours"]
+        meta["events"] += m["events"]
+        meta["hung"] = meta["hung"] or m["hung"]
+        meta["noreturn"] += m.get("noreturn", [])
+        skip += m.get("noreturn", [])
+        resume = m.get("resume", -1)
+        if resume < 0:
+            break
+        if p.returncode == 3 and not m.get("noreturn") and attempt > 0:
+            break   # ended by the memory guard without a culprit twice: give up resuming
+    else:
+        meta["truncated"] = True
+    if resume >= 0:
+        meta["truncated"] = True
+        vf.log("[c15] %s: stopped after %d calls that did not return (behaviours %s); not resumed beyond behaviour %d" % (
+            what, len(meta["noreturn"]), meta["noreturn"], resume))
+    return meta
 
 
 def dedup(paths, out):
@@ -117,12 +165,13 @@ def history_of(ev, behs):
 
 
 def random_histories(path):
-    """the random driver records every command: rebuild the histories from the trace"""
-    behs = {}
+    """the random driver records every command: rebuild the histories from the trace (a history that was
+    resumed by a fresh process is recorded twice: commands are keyed by their step)"""
+    steps = {}
     for ev in vf.read_ndjson(path):
         if ev["cmd"]["t"] != "compile":
-            behs.setdefault(ev["h"], []).append(ev["cmd"])
-    return behs
+            steps.setdefault(ev["h"], {})[ev["k"]] = ev["cmd"]
+    return {h: [d[k] for k in sorted(d)] for h, d in steps.items()}
 
 
 def validate(path, n):
@@ -188,21 +237,21 @@ def run(tier):
             return {"profile": prof, "max_entries": bound, "distinct": r.distinct, "generated": r.generated, "depth": r.depth,
                     "never_evaluated": r.coverage_zero[:20]}
 
-        def generate_and_replay():
-            r = vf.tlc("DiscoChainMC", "gen.cfg", files={"gen.cfg": cfg("DiscoChain_gen.cfg", T["bound"])}, timeout=2400, heap="8g",
-                       workers=min(6, vf.NCPU))
+        def generate_and_replay(prof, bound, actx):
+            r = vf.tlc("DiscoChainMC", "gen.cfg", files={"gen.cfg": cfg("DiscoChain_gen.cfg", bound, prof)}, timeout=2400, heap="8g",
+                       workers=min(6, vf.NCPU) if prof == "core" else 2)
             if r.rc != 0 or r.distinct == 0:
-                raise vf.Infra("model check DiscoChainMC/DiscoChain_gen.cfg failed rc=%s violated=%s\n%s" % (r.rc, r.violated, r.out[-3000:]))
+                raise vf.Infra("model check DiscoChainMC/DiscoChain_gen.cfg (%s) failed rc=%s violated=%s\n%s" % (prof, r.rc, r.violated, r.out[-3000:]))
             if not r.traces:
                 raise vf.Infra("generation printed no behaviours")
             behs = r.traces
-            bf = os.path.join(work, "beh.json")
+            bf = os.path.join(work, "beh-%s.json" % prof)
             with open(bf, "w") as f:
                 json.dump(behs, f)
-            tp = os.path.join(work, "gen.ndjson")
-            meta = harness(binary, ["replay", "-in", bf, "-out", tp, "-auto", "-lastonly", "-actx", str(T["actx"]), "-reps", str(T["reps"]),
-                                    "-seed", str(seed)], "replay")
-            return ("gen:core", tp, behs, meta), mc_entry("core", T["bound"], r)
+            tp = os.path.join(work, "gen-%s.ndjson" % prof)
+            meta = harness(binary, ["replay", "-in", bf, "-out", tp, "-auto", "-lastonly", "-actx", str(actx), "-reps", str(T["reps"]),
+                                    "-seed", str(seed)], "replay:" + prof)
+            return ("gen:" + prof, tp, behs, meta), mc_entry(prof, bound, r)
 
         # vacuity: TLC -coverage on the smaller bound (coverage slows the big run down a lot)
         def model_check_coverage():
@@ -247,15 +296,19 @@ def run(tier):
 
         with ThreadPoolExecutor(max_workers=8) as ex:
             f_corpus = ex.submit(corpus_run)
-            f_gen = ex.submit(generate_and_replay)
+            f_gen = ex.submit(generate_and_replay, "core", T["bound"], T["actx"])
+            # cycles located anywhere reachable from the compiled service (behind a router / another splitter)
+            f_cyc = ex.submit(generate_and_replay, "cyc", 3, 1)
             f_wide = ex.submit(model_check_wide) if T["wide"] else None
             f_direct = ex.submit(model_check_direct) if tier == "thorough" else None
             f_cov = ex.submit(model_check_coverage) if tier == "thorough" else None
             f_rnd = [ex.submit(random_run, i, n, length) for i, (n, length) in enumerate(T["rnd"])]
-            tr, mc = f_gen.result()
-            traces = [tr]
-            cov["mc"].append(mc)
-            cov["gen"].append({"profile": "core", "max_entries": T["bound"], "transitions": len(tr[2])})
+            traces = []
+            for fu in (f_gen, f_cyc):
+                tr, mc = fu.result()
+                traces.append(tr)
+                cov["mc"].append(mc)
+                cov["gen"].append({"profile": mc["profile"], "max_entries": mc["max_entries"], "transitions": len(tr[2])})
             for fu in f_rnd:
                 tr, c = fu.result()
                 traces.append(tr)
@@ -280,7 +333,7 @@ def run(tier):
         judge(rows, rejects, verdict, pred_hits)
         hung = any(m.get("hung") for _, _, _, m in traces)
         if hung and "Terminates" not in pred_hits:
-            raise vf.Infra("harness reported a hung compilation but TLC did not see the event")
+            raise vf.Infra("harness reported a call that did not return but TLC did not see the event")
         n_new = verdict.finish()
         # measured coverage
         kinds = {}
@@ -320,6 +373,8 @@ def run(tier):
             "event_kinds": kinds, "samples": samples,
             "model_check": cov["mc"], "generation": cov["gen"], "random": cov["random"],
             "model_of_code_as_written": cov.get("model_of_code_as_written"), "corpus": cov.get("corpus"), "tlc_coverage": cov.get("tlc_coverage"),
+            "calls_without_return": sum(len(m.get("noreturn", [])) for _, _, _, m in traces),
+            "traces_truncated_after_no_return": [src for src, _, _, m in traces if m.get("truncated")],
             "predicates": sorted(STORE_PREDS | COMPILE_PREDS), "predicate_doc": DOC,
             "rejected_events_by_predicate": pred_hits,
             "known_findings_matched": verdict.known_hit,
